@@ -49,7 +49,7 @@ type gridOpts struct {
 func p32(i int32) *int32 { return &i }
 
 func strategiesFor(n int) []gen.Strategy {
-	return []gen.Strategy{gen.RU(0), gen.RU(1), gen.RU(2), gen.RU(int32(n)), gen.RU(int32(n + 3)), gen.OnDelete()}
+	return []gen.Strategy{gen.RU(0), gen.RU(1), gen.RU(2), gen.RU(int32(n)), gen.RU(int32(n + 3)), gen.OnDelete(), gen.OnDeleteWithBlock(1)}
 }
 
 // alphabet of pod cells for a history.
